@@ -415,13 +415,38 @@ class Node:
 '''
 
 
+# the same class with every annotation spelled as ONE string that resolves at module level - which is how generated models
+# spell self references (parent: "TreeNode | None", kids: "List[TreeNode] | None")
+CYCLIC_SRC_GENERATED_STYLE = '''
+from dataclasses import dataclass, field
+from typing import Any, Dict, List, Optional
+
+@dataclass
+class Node:
+    name: str
+    nxt: "Node | None" = None
+    kids: "List[Node] | None" = field(default_factory=list)
+    extra: "Dict[str, Any]" = field(default_factory=dict)
+    anything: Any = None
+
+    class Meta:
+        key_transform_with_load = {"name": "name", "next": "nxt", "kids": "kids", "extra": "extra", "anything": "anything"}
+        key_transform_with_dump = {"name": "name", "nxt": "next", "kids": "kids", "extra": "extra", "anything": "anything"}
+'''
+
+
 def run_cyclic(ctx: Ctx) -> None:
+    _run_cyclic(ctx, "vmon_cyc_mod", CYCLIC_SRC, [])
+    _run_cyclic(ctx, "vmon_cyc_mod_gen", CYCLIC_SRC_GENERATED_STYLE, ["cycle_with_annotations_spelled_as_generated_models"])
+
+
+def _run_cyclic(ctx: Ctx, modname: str, source: str, extra_feats: list[str]) -> None:
     """In-process: serializer on cyclic graphs under a step/time guard (RecursionError = does not terminate properly)."""
     rec = ctx.rec
     d = ctx.scratch.new("cyc")
-    (d / "vmon_cyc_mod.py").write_text(CYCLIC_SRC)
+    (d / f"{modname}.py").write_text(source)
     sys.path.insert(0, str(d))
-    mod = importlib.import_module("vmon_cyc_mod")
+    mod = importlib.import_module(modname)
     from pyopenapi_gen.core import utils as U
 
     N = mod.Node
@@ -491,6 +516,9 @@ def run_cyclic(ctx: Ctx) -> None:
               ("plain_list_self", plain_list_self, []), ("plain_dict_self", plain_dict_self, ["cycle_through_dict_or_any"]),
               ("shared_not_cyclic", shared_not_cyclic, [])]
     for name, mk, feats in shapes:
+        feats = feats + extra_feats
+        if extra_feats:
+            name = f"{name}/generated_style_annotations"
         rec.count("cyclic_graphs")
         rec.case({"cyclic": name})
         obj = mk()
